@@ -201,6 +201,15 @@ impl<'a, 'b, 'c> AdtDeserializer<'a, 'b, 'c> {
         }
     }
 
+    /// The error for a constructor index that matched none of the cases of `type_name`
+    pub fn unknown_constructor<T>(&mut self, type_name: &str) -> Result<T> {
+        let constructor_id = self.read_or_get_constructor_idx()?;
+        Err(Error::InvalidConstructorId {
+            constructor_id,
+            type_name: type_name.to_string(),
+        })
+    }
+
     fn record_field_index(&mut self, chunk: u8) -> FieldPosition {
         let last_index = &mut self.last_index_per_chunk[chunk as usize];
         let new_index = *last_index + 1;
